@@ -26,6 +26,54 @@ def ensure_hashseed(value="0"):
 
 
 _booted = False
+IN_RUN = [0]          # > 0 while a check's run_one is executing (set by sim.batch)
+
+
+def _install_time_fallback():
+    """Last line of defence for the clock seam: the modules of the code under test that use `time`
+    today have their own module-level seam (ledger.protocol.time, admin.misc.time,
+    ledgerblue.comm.time); a change that starts using `time` somewhere else would otherwise sleep
+    for real and read the real clock inside a simulated run.  While a run executes, calls made by
+    the run's own threads (main thread or scheduler tasks) go to the simulated clock."""
+    import threading
+    import time as _time
+    real = {"sleep": _time.sleep, "time": _time.time, "monotonic": _time.monotonic}
+
+    def _world():
+        if not IN_RUN[0]:
+            return None
+        wmod = sys.modules.get("sim.world")
+        w = getattr(wmod, "_CURRENT", None) if wmod else None
+        if w is None:
+            return None
+        kmod = sys.modules.get("sim.kernel")
+        if threading.current_thread() is threading.main_thread():
+            return w
+        if kmod is not None and getattr(kmod._TL, "kernel", None) is not None and \
+                not getattr(kmod._TL, "internal", 0):
+            return w
+        return None
+
+    def sleep(d):
+        w = _world()
+        if w is None:
+            return real["sleep"](d)
+        hook = getattr(w, "sleep_hook", None)
+        cc = getattr(w, "crash_check", None)
+        if cc:
+            cc()
+        if hook is not None:
+            return hook(d)
+        return w.clock.sleep(d)
+
+    def now():
+        w = _world()
+        return real["time"]() if w is None else w.clock.time()
+
+    def monotonic():
+        w = _world()
+        return real["monotonic"]() if w is None else w.clock.monotonic()
+    _time.sleep, _time.time, _time.monotonic = sleep, now, monotonic
 
 
 def boot():
@@ -40,6 +88,7 @@ def boot():
         sys.path.insert(0, MIDDLEWARE)
     from sim.stubs import bitcoin_core
     bitcoin_core.install()
+    _install_time_fallback()
     import logging
     logging.disable(logging.CRITICAL)
     # The repo never touches the network in our scenarios; make an accidental
